@@ -97,6 +97,40 @@ class FileProxy:
         return getattr(self._f, n)
 
 
+class ReadProxy:
+    """the file object the reader iterates over: one scheduling point `read`; an injected failure may strike before the first
+    line or after half of the lines have been handed out (a read error in the middle of the file)"""
+
+    def __init__(self, f, plan, path):
+        self._f, self._plan, self._path = f, plan, path
+
+    def __enter__(self):
+        return self
+
+    def __exit__(self, *exc):
+        self._f.close()
+        return False
+
+    def __iter__(self):
+        a = self._plan.point("read", self._path)
+        if a and a[0] == "kill_before":
+            _die()
+        if a and a[0] == "raise":
+            raise ERRORS[a[1]]()
+        if a and a[0] == "raise_mid":
+            lines = list(self._f)
+            for ln in lines[: len(lines) // 2]:
+                yield ln
+            raise ERRORS[a[1]]()
+        for ln in self._f:
+            yield ln
+        if a and a[0] == "kill_after":
+            _die()
+
+    def __getattr__(self, n):
+        return getattr(self._f, n)
+
+
 def install(plan):
     """replace, inside vsg.apply_rules (and the reader in vsg.vhdlFile.utils), the names through which the file system is touched"""
 
@@ -127,7 +161,7 @@ def install(plan):
             _die()
         if "w" in mode:
             return FileProxy(f, plan, path)
-        return f
+        return ReadProxy(f, plan, path)
 
     os_proxy = types.SimpleNamespace(**{n: getattr(os, n) for n in dir(os) if not n.startswith("__")})
     os_proxy.stat = wrap("os.stat", os.stat)
@@ -160,7 +194,7 @@ def run_child(sc, faults, rule_fault=None):
     """one execution of the real apply_rules in a forked child; returns (kind, log, exception name)"""
     d = scenario_dir(sc["name"])
     path = os.path.join(d, "t.vhd")
-    data = ("\n".join(sc["lines"]) + "\n").encode()
+    data = ("\n".join(sc["lines"]) + "\n").encode(sc.get("encoding", "utf-8"))
     with open(path, "wb") as f:
         f.write(data)
     os.chmod(path, sc["mode"])
@@ -275,7 +309,12 @@ _fixed_cache = {}
 def fixed_of(sc):
     key = (tuple(sc["lines"]), repr(sc.get("cfg")))
     if key not in _fixed_cache:
-        kind, msg, log, d, path, data, st0 = run_child(dict(sc, backup=False, mode=0o644, name=sc["name"] + "_ref"), {})
+        # the reference is always computed from the UTF-8 spelling of the text: VSG writes UTF-8 whatever it read, so the fixed bytes
+        # of a Latin-1 file are those of its UTF-8 twin (an independent oracle for the decoding fall-back of the reader)
+        ref = dict(sc, backup=False, mode=0o644, name=sc["name"] + "_ref")
+        ref.pop("encoding", None)
+        ref.pop("prebak", None)
+        kind, msg, log, d, path, data, st0 = run_child(ref, {})
         with open(path, "rb") as f:
             _fixed_cache[key] = (f.read(), log, msg)
     return _fixed_cache[key]
@@ -322,6 +361,10 @@ def scenarios(tier):
                 if tier == "quick" and expect != "fixable" and mode not in (0o644, 0o444):
                     continue
                 out.append({"name": f"{expect}{i}_{'b' if backup else 'n'}_{oct(mode)[2:]}", "expect": expect, "lines": lines, "cfg": cfg, "backup": backup, "mode": mode})
+    # a file that is not UTF-8: the first non-UTF-8 byte lies beyond the first decoding chunk of the reader (long comment header)
+    latin = ["-- " + "header line %03d " % i + "x" * 40 for i in range(200)] + ["-- gr\u00fc\u00dfe / caf\u00e9"] + FIXABLE
+    for backup in (False, True):
+        out.append({"name": f"latin1_{'b' if backup else 'n'}_644", "expect": "fixable", "lines": latin, "cfg": None, "backup": backup, "mode": 0o644, "encoding": "ISO-8859-1"})
     for pre in ("newer", "older"):
         out.append({"name": f"fixable0_b_644_bak{pre}", "expect": "fixable", "lines": FIXABLE, "cfg": None, "backup": True, "mode": 0o644, "prebak": pre})
     return out
@@ -338,6 +381,9 @@ def items(tier):
         for k in range(1, n + 1):
             for kk in ("kill_before", "kill_after"):
                 out.append({"id": f"{sc['name']}/{kk}@{k}:{names[k]}", "scenario": sc, "faults": {k: [kk]}, "sample": (k == 6 and sc["name"] == "fixable0_b_644" and kk == "kill_after")})
+            if names[k] == "read":
+                for e in ("EIO", "PermissionError"):
+                    out.append({"id": f"{sc['name']}/{e}@{k}:read_mid", "scenario": sc, "faults": {k: ["raise_mid", e]}})
             if names[k] == "write":
                 for frac in ("none", "half", "all_but_one"):
                     out.append({"id": f"{sc['name']}/torn:{frac}@{k}", "scenario": sc, "faults": {k: ["torn", frac]}})
@@ -362,9 +408,9 @@ def main(tier):
     outcomes = {k[8:]: v for k, v in m.extra.items() if k.startswith("outcome_")}
     return report.finish(
         PROP, tier, "fault_enumeration", [m], t0,
-        "history = the OS-level calls of one real apply_rules --fix execution (read open, [shutil.copy2], os.stat, open tmp, write x2, close, os.chmod, os.replace, os.remove), intercepted inside "
+        "history = the OS-level calls of one real apply_rules --fix execution (read open, read (failure before the first or in the middle of the lines), [shutil.copy2], os.stat, open tmp, write x2, close, os.chmod, os.replace, os.remove), intercepted inside "
         "vsg.apply_rules / vsg.vhdlFile.utils; enumerated: kill before and after every call, torn writes (0, half, all-but-one byte flushed), every single injected OSError of 6 kinds at every call, "
-        "ordered pairs of faults, a rule raising at its m-th repair; x {with, without --backup} x original modes {644,600,444,755} x inputs {fixable, clean, parse failure, configuration error}; "
+        "ordered pairs of faults, a rule raising at its m-th repair; x {with, without --backup} x original modes {644,600,444,755} x inputs {fixable, clean, parse failure, configuration error, a Latin-1 file whose first non-UTF-8 byte lies beyond 12 KiB (reference: the fixed bytes of its UTF-8 twin)}; "
         "each execution runs in a forked child (a kill is os._exit: unflushed buffers are lost); the invariant is read off the directory afterwards; non-trivial = every execution (each carries a fault plan)",
         ["os.replace is atomic (POSIX rename); open(tmp,'w') never touches the target; kernel-level torn renames and power loss without fsync are outside the model",
          "in quick, fault pairs use the same error kind at both sites except for two scenarios that get the full 6x6 product"],
